@@ -53,6 +53,10 @@ using G0 = smooth::Bundle<smooth::SE_K_3<S, 2>, smooth::SO2<S>>;
 using G0 = S;
 #elif VH_GROUP == 17
 using G0 = Eigen::Matrix<S, 5, 1>;
+#elif VH_GROUP == 18
+using G0 = smooth::SE_K_3<S, 3>;
+#elif VH_GROUP == 19
+using G0 = smooth::SE_K_3<S, 4>;
 #else
 #error "unknown VH_GROUP"
 #endif
